@@ -708,18 +708,6 @@ func c06Run(u *vfUnit) {
 	c06ClientDecode(u)
 }
 
-func vfFirstDiff(a, b []byte) int {
-	n := len(a)
-	if len(b) < n {
-		n = len(b)
-	}
-	for i := 0; i < n; i++ {
-		if a[i] != b[i] {
-			return i
-		}
-	}
-	return n
-}
 
 // c06ClientDecode: responses that packet.go only encodes are decoded by the real
 // client path; a scripted peer serves reference-encoded replies.
